@@ -40,14 +40,27 @@ def world_over(objs):
     return w
 
 
+def _late_impl():
+    return ("late-overload",)
+
+
 def apply_structural(world, op):
+    """Returns None for evaluation ops, else a short text describing what the structural op did (compared across the restart)."""
+    if op["op"] == "try_overload":
+        # "remain usable for further registration": the overload decorator must behave the same on the reloaded copy
+        # (a dataset without a dispatch refuses it, one with a dispatch accepts it)
+        try:
+            world.prog.obj[op["ds"]].overload(op["alias"])(_late_impl)
+            return "accepted"
+        except Exception as e:  # noqa: BLE001
+            return "refused:" + type(e).__name__
     if op["op"] == "register_node":
         world.prog.obj[op["ds"]].register(op["alias"], world.prog.obj[op["n"]])
-        return True
+        return "registered"
     if op["op"] == "register_value":
         world.prog.obj[op["ds"]].register(op["alias"], Value(("registered", op["tag"])))
-        return True
-    return False
+        return "registered"
+    return None
 
 
 def child_continue(item):
@@ -65,8 +78,9 @@ def child_continue(item):
         w = world_over(roots)
         outs = []
         for op in item["ops"]:
-            if apply_structural(w, op):
-                outs.append(["struct"])
+            st = apply_structural(w, op)
+            if st is not None:
+                outs.append(["struct", st])
                 continue
             outs.append(w.do(op).brief())
         return {"outs": outs}
@@ -112,6 +126,9 @@ class C20(HistoryProperty):
         if ds_roots and rng.random() < 0.5:
             d = rng.choice(ds_roots)
             after.insert(rng.randrange(len(after) + 1), {"op": "register_value", "ds": d, "alias": rng.choice(["a", "b", "c", 1, None]), "tag": "late"})
+        ds_any = [x for x in spec["roots"] if gen.node_by_id(spec, x)["k"] == "dataset"]
+        if ds_any and rng.random() < 0.4:
+            after.insert(rng.randrange(len(after) + 1), {"op": "try_overload", "ds": rng.choice(ds_any), "alias": rng.choice(["a", "q"])})
         pre = []
         if rng.random() < 0.35:
             # a cyclic graph: an overload of D that (indirectly) refers back to D through a with_options derivative of D
@@ -159,9 +176,14 @@ class C20(HistoryProperty):
                             pending_fresh = {"name": name, "source": source, "pickle": base64.b64encode(data).decode(), "ops": case["ops"][i + 1:],
                                              "hashseed": op["hashseed"], "at": i}
                         continue
-                    if apply_structural(ref, op):
+                    st = apply_structural(ref, op)
+                    if st is not None:
+                        op["_ref"] = ["struct", st]
                         if copy_w is not None:
-                            apply_structural(copy_w, op)
+                            st2 = apply_structural(copy_w, op)
+                            if st2 != st:
+                                res.violate("behaviour-differs-after-round-trip", op_index=i, node=op.get("ds"), op_kind=op["op"], original=st, reloaded=st2)
+                                break
                         continue
                     before = ref.count("body")
                     out = ref.do(op)
@@ -178,7 +200,7 @@ class C20(HistoryProperty):
                                         protocol=[o_["protocol"] for o_ in case["ops"] if o_["op"] == "restart"][0])
                             break
                 if pending_fresh is not None and not res.violations:
-                    want = [["struct"] if op["op"] in ("register_value", "register_node") else op.get("_ref") for op in pending_fresh["ops"]]
+                    want = [op.get("_ref") for op in pending_fresh["ops"]]
                     got = self._fresh(pending_fresh)
                     res.bump("fresh_interpreter_restarts")
                     if "error" in got:
